@@ -77,6 +77,9 @@ type snapshot struct {
 	OK    bool
 	Repos []snapRepo
 	KV    []int // value# (0 = absent / error) for each probe
+	// ids handed out to a repo and an instance created AFTER the snapshot was taken (only in
+	// processes started after a crash): root version id, instance id; 0 = not probed
+	NewV, NewI int
 }
 
 type repoInfo struct {
@@ -139,6 +142,21 @@ type view struct {
 	vuuid map[int]string
 	root  map[int]string
 	infos map[string]repoInfo
+}
+
+func (v *view) openNode(repo int) string {
+	best, bestV := v.root[repo], 0
+	for _, ri := range v.infos {
+		if ri.Root != v.root[repo] {
+			continue
+		}
+		for _, n := range ri.DAG.Nodes {
+			if !n.Locked && (bestV == 0 || n.VersionID < bestV) {
+				best, bestV = n.UUID, n.VersionID
+			}
+		}
+	}
+	return best
 }
 
 func getView(p *dvh.Proc) (*view, bool) {
@@ -212,7 +230,9 @@ func execOp(p *dvh.Proc, o wop) (alive bool) {
 	case "newrepo":
 		return post("/api/repos", map[string]string{"alias": fmt.Sprintf("r%d", o.Repo)})
 	case "newdata":
-		return post("/api/repo/"+v.root[o.Repo]+"/instance", map[string]string{"typename": "keyvalue", "dataname": o.Name})
+		// the HTTP handler refuses new instances on a committed node: address the repo through its
+		// lowest open node (the generators only ask for an instance when the repo has one)
+		return post("/api/repo/"+v.openNode(o.Repo)+"/instance", map[string]string{"typename": "keyvalue", "dataname": o.Name})
 	case "commit":
 		return post("/api/node/"+v.vuuid[o.V]+"/commit", map[string]string{"note": "c"})
 	case "newversion":
@@ -343,6 +363,24 @@ func runCrash(c jcrash, w *world, pt cpoint) (snapshot, int, string) {
 	}
 	s := takeSnapshot(p3, w)
 	rec := p3.Meta0
+	// what would the recovered server issue next?  (freshness of ids after recovery)
+	if _, body, alive := p3.PostJSON("/api/repos", map[string]string{"alias": "r999"}); alive {
+		var m struct{ Root string }
+		json.Unmarshal(body, &m)
+		if v, ok := getView(p3); ok && m.Root != "" {
+			for _, ri := range v.infos {
+				if ri.Root == m.Root {
+					for _, n := range ri.DAG.Nodes {
+						s.NewV = n.VersionID
+					}
+				}
+			}
+			p3.PostJSON("/api/repo/"+m.Root+"/instance", map[string]string{"typename": "keyvalue", "dataname": "probe"})
+			if r, _ := p3.Call("iid", m.Root, "probe"); r.S == 200 {
+				s.NewI = int(r.N)
+			}
+		}
+	}
 	p3.Quit()
 	return s, rec, ""
 }
@@ -372,7 +410,7 @@ func coqSnap(s snapshot) string {
 		}
 		rs = append(rs, fmt.Sprintf("(%d,[%s],[%s])", r.RootV, strings.Join(ns, ";"), strings.Join(ds, ";")))
 	}
-	return fmt.Sprintf("(Some ([%s], %s))", strings.Join(rs, ";"), coqInts(s.KV))
+	return fmt.Sprintf("(Some ([%s], %s, (%d, %d)))", strings.Join(rs, ";"), coqInts(s.KV), s.NewV, s.NewI)
 }
 
 func coqOps(c jcrash, w *world) string {
@@ -445,7 +483,7 @@ func runCrashCase(run *lib.Run, c jcrash, o lib.Opts) {
 			pts = append(pts, cpoint{Class: "data", N: n, Mode: "after"}, cpoint{Class: "data", N: n, Mode: "before"})
 		}
 	}
-	var ps []string
+	var ps, psDel []string
 	second := 0
 	for _, pt := range pts {
 		s, rec, note := runCrash(c, w, pt)
@@ -462,7 +500,14 @@ func runCrashCase(run *lib.Run, c jcrash, o lib.Opts) {
 			eff = pt.N - 1
 		}
 		j := opIndex(cum, pt.N)
-		ps = append(ps, fmt.Sprintf("(%s, %d%%nat, %d%%nat, 0%%nat, %s)", lib.CoqBool(pt.Class == "meta"), eff, j, coqSnap(s)))
+		term := fmt.Sprintf("(%s, %d%%nat, %d%%nat, 0%%nat, %s)", lib.CoqBool(pt.Class == "meta"), eff, j, coqSnap(s))
+		if pt.Class == "data" && j >= 1 && j <= len(c.Ops) && c.Ops[j-1].Op == "deldata" {
+			// key-value deletions of an instance delete: a case of their own (known finding), so that
+			// they cannot mask anything in the main case
+			psDel = append(psDel, term)
+		} else {
+			ps = append(ps, term)
+		}
 		run.Count("point:" + pt.Class + "-" + pt.Mode)
 		// second crash: kill the recovering process after each of its own writes
 		if pt.Class == "meta" && pt.Mode == "after" && pt.Second == 0 && len(c.Points) == 0 && rec > 0 {
@@ -492,13 +537,28 @@ func runCrashCase(run *lib.Run, c jcrash, o lib.Opts) {
 		}
 		return "[" + strings.Join(ss, ";") + "]"
 	}
-	term := fmt.Sprintf("(CCrash %s\n    %s\n    %s %s\n    [%s]\n    [%s])", coqOps(c, w), coqInts(traceKinds(ref.trace)),
-		cumN(ref.cumMeta), cumN(ref.cumData), strings.Join(refs, ";\n     "), strings.Join(ps, ";\n     "))
+	mk := func(ps []string) string {
+		return fmt.Sprintf("(CCrash %s\n    %s\n    %s %s\n    [%s]\n    [%s])", coqOps(c, w), coqInts(traceKinds(ref.trace)),
+			cumN(ref.cumMeta), cumN(ref.cumData), strings.Join(refs, ";\n     "), strings.Join(ps, ";\n     "))
+	}
 	var kinds []string
 	for _, op := range c.Ops {
 		kinds = append(kinds, op.Op)
 	}
-	run.Add("crash-workload", term, c, "crash/"+strings.Join(kinds, ","))
+	run.Add("crash-workload", mk(ps), c, "crash/"+strings.Join(kinds, ","))
+	if len(psDel) > 0 {
+		cd := c
+		cd.Name += "/instance-delete-data-points"
+		cd.Points = nil
+		for _, pt := range pts {
+			if pt.Class == "data" {
+				if j := opIndex(ref.cumData, pt.N); j >= 1 && j <= len(c.Ops) && c.Ops[j-1].Op == "deldata" {
+					cd.Points = append(cd.Points, pt)
+				}
+			}
+		}
+		run.Add("crash-instance-delete", mk(psDel), cd, "crashdel/"+strings.Join(kinds, ","))
+	}
 	run.Dist["keys-left-after-DeleteAll"] += ref.leftover
 	run.Dist["crash-points"] += len(ps)
 	run.Dist["workload-ops"] += len(c.Ops)
@@ -531,78 +591,119 @@ func fixedWorkload() jcrash {
 
 func genCrash(run *lib.Run, o lib.Opts, rng *lib.Rand) {
 	runCrashCase(run, fixedWorkload(), o)
-	n := 0
+	n := 1
 	if o.Thorough() {
 		n = 8
+	}
+	if o.N > 0 {
+		n = o.N
 	}
 	for i := 0; i < n; i++ {
 		runCrashCase(run, randomWorkload(rng, i), o)
 	}
 }
 
-// randomWorkload: repo-level operations biased to be accepted, over one or two repos
+// randomWorkload builds a workload against a live child (so that it can name versions that exist
+// and knows which nodes are committed); the crash runs then replay it from scratch.
 func randomWorkload(rng *lib.Rand, idx int) jcrash {
 	c := jcrash{Kind: "crash", Name: fmt.Sprintf("random-%d", idx)}
-	type node struct {
-		repo   int
-		locked bool
+	dir := freshDir()
+	defer os.RemoveAll(dir)
+	p, err := dvh.Start(dvh.Opts{Dir: dir})
+	if err != nil {
+		fatal("generator child: %v", err)
 	}
-	nodes := map[int]*node{}
-	nextV, nextRepo := 1, 1
-	datan := map[int][]string{}
-	branchN := 0
-	addRepo := func() {
-		c.Ops = append(c.Ops, wop{Op: "newrepo", Repo: nextRepo})
-		nodes[nextV] = &node{repo: nextRepo}
-		nextV++
-		nextRepo++
-	}
-	addRepo()
-	steps := 6 + rng.Intn(8)
-	for i := 0; i < steps; i++ {
-		var vs []int
-		for v := range nodes {
-			vs = append(vs, v)
+	defer p.Quit()
+	nextRepo, branchN, valN := 1, 0, 0
+	data := map[int][]string{} // repo ordinal -> instance names
+	do := func(o wop) {
+		c.Ops = append(c.Ops, o)
+		if !execOp(p, o) {
+			fatal("generator child died at %+v: %s", o, p.Stderr)
 		}
-		sort.Ints(vs)
-		v := vs[rng.Intn(len(vs))]
-		nd := nodes[v]
-		switch rng.Intn(8) {
+	}
+	do(wop{Op: "newrepo", Repo: nextRepo})
+	nextRepo++
+	steps := 8 + rng.Intn(10)
+	for i := 0; i < steps; i++ {
+		v, ok := getView(p)
+		if !ok {
+			break
+		}
+		type nd struct {
+			v, repo int
+			locked  bool
+		}
+		var nodes []nd
+		for _, ri := range v.infos {
+			var ord int
+			fmt.Sscanf(ri.Alias, "r%d", &ord)
+			for _, n := range ri.DAG.Nodes {
+				nodes = append(nodes, nd{n.VersionID, ord, n.Locked})
+			}
+		}
+		if len(nodes) == 0 {
+			do(wop{Op: "newrepo", Repo: nextRepo})
+			nextRepo++
+			continue
+		}
+		sort.Slice(nodes, func(a, b int) bool { return nodes[a].v < nodes[b].v })
+		n := nodes[rng.Intn(len(nodes))]
+		switch rng.Intn(12) {
 		case 0:
 			if nextRepo <= 3 {
-				addRepo()
+				do(wop{Op: "newrepo", Repo: nextRepo})
+				nextRepo++
 			}
 		case 1:
-			name := fmt.Sprintf("d%d", len(datan[nd.repo])+1)
-			datan[nd.repo] = append(datan[nd.repo], name)
-			c.Ops = append(c.Ops, wop{Op: "newdata", Repo: nd.repo, Name: name})
-		case 2, 3:
-			c.Ops = append(c.Ops, wop{Op: "commit", Repo: nd.repo, V: v})
-			nd.locked = true
-		case 4:
-			c.Ops = append(c.Ops, wop{Op: "newversion", Repo: nd.repo, V: v})
-			if nd.locked {
-				// may still be refused (branch already continued); the model decides, the driver only
-				// needs version numbers of nodes that certainly exist, so it re-reads them when executing
-			}
-			c.Ops = append(c.Ops, wop{Op: "commit", Repo: nd.repo, V: v})
-		case 5:
-			branchN++
-			c.Ops = append(c.Ops, wop{Op: "branch", Repo: nd.repo, V: v, Branch: fmt.Sprintf("b%d", branchN)})
-		case 6:
-			if len(datan[nd.repo]) > 0 {
-				c.Ops = append(c.Ops, wop{Op: "put", Repo: nd.repo, V: v, Name: datan[nd.repo][0], Key: "k", Val: fmt.Sprintf("x%d", i)})
-			}
-		case 7:
-			if len(vs) >= 2 {
-				v2 := vs[rng.Intn(len(vs))]
-				if v2 != v && nodes[v2].repo == nd.repo {
-					c.Ops = append(c.Ops, wop{Op: "merge", Repo: nd.repo, Parents: []int{v, v2}})
+			open := false
+			for _, m := range nodes {
+				if m.repo == n.repo && !m.locked {
+					open = true
 				}
 			}
+			if !open {
+				continue
+			}
+			name := fmt.Sprintf("d%d_%d", n.repo, len(data[n.repo])+1)
+			data[n.repo] = append(data[n.repo], name)
+			do(wop{Op: "newdata", Repo: n.repo, Name: name})
+		case 2, 3, 4:
+			do(wop{Op: "commit", Repo: n.repo, V: n.v}) // refused without a write when already committed
+		case 5, 6:
+			do(wop{Op: "newversion", Repo: n.repo, V: n.v}) // refused without a write on an open node or a continued branch
+		case 7:
+			branchN++
+			do(wop{Op: "branch", Repo: n.repo, V: n.v, Branch: fmt.Sprintf("b%d", branchN)})
+		case 8:
+			if len(data[n.repo]) > 0 && !n.locked {
+				valN++
+				do(wop{Op: "put", Repo: n.repo, V: n.v, Name: data[n.repo][rng.Intn(len(data[n.repo]))], Key: fmt.Sprintf("k%d", rng.Intn(3)), Val: fmt.Sprintf("x%d", valN)})
+			}
+		case 9:
+			// merges only of committed parents of one repo: a refused merge leaves an unsaved node in
+			// memory (C07's finding), which no restart can reproduce
+			var cands []int
+			for _, m := range nodes {
+				if m.repo == n.repo && m.locked && m.v != n.v {
+					cands = append(cands, m.v)
+				}
+			}
+			if n.locked && len(cands) > 0 {
+				do(wop{Op: "merge", Repo: n.repo, Parents: []int{n.v, cands[rng.Intn(len(cands))]}})
+			}
+		case 10:
+			if len(data[n.repo]) > 0 && rng.Chance(0.5) {
+				k := rng.Intn(len(data[n.repo]))
+				do(wop{Op: "deldata", Repo: n.repo, Name: data[n.repo][k]})
+				data[n.repo] = append(data[n.repo][:k], data[n.repo][k+1:]...)
+			}
+		case 11:
+			if len(v.infos) >= 2 && rng.Chance(0.4) {
+				do(wop{Op: "delrepo", Repo: n.repo})
+				delete(data, n.repo)
+			}
 		}
-		// the driver cannot know which requests were accepted; new version ids are discovered from the
-		// reference run, so random workloads only ever name versions 1..nextV-1 created by newrepo
 	}
 	return c
 }
